@@ -325,6 +325,7 @@ type Visit struct {
 	Reason byte
 	Node   string // term
 	Raw    datamodel.Node
+	Kept   datamodel.Path // the Progress.Path value as handed to the callback, kept beyond the callback
 }
 
 type WalkObs struct {
@@ -332,6 +333,8 @@ type WalkObs struct {
 	Visits  []Visit
 	Events  []string
 	Outcome string
+	// PathChanged: a path value kept from a visit reads differently after the walk than at the visit ("" = none)
+	PathChanged string
 }
 
 func (o WalkObs) String() string {
@@ -409,7 +412,7 @@ func RunWalk(g *Graph, spec Val, w WalkCfg, matching bool) WalkObs {
 			term = v.Term()
 		}
 		segs := pathSegs(p.Path)
-		obs.Visits = append(obs.Visits, Visit{Path: segs, Reason: reason, Node: term, Raw: n})
+		obs.Visits = append(obs.Visits, Visit{Path: segs, Reason: reason, Node: term, Raw: n, Kept: p.Path})
 		obs.Events = append(obs.Events, fmt.Sprintf("V %s %c %s", PathArg(segs), reason, term))
 	}
 	func() {
@@ -429,6 +432,11 @@ func RunWalk(g *Graph, spec Val, w WalkCfg, matching bool) WalkObs {
 		}
 	}()
 	flushLoads()
+	for _, v := range obs.Visits {
+		if now := PathArg(pathSegs(v.Kept)); now != PathArg(v.Path) && obs.PathChanged == "" {
+			obs.PathChanged = fmt.Sprintf("path kept from the visit of %s reads %s after the walk", PathArg(v.Path), now)
+		}
+	}
 	if obs.Outcome == "panic" {
 		return obs
 	}
